@@ -364,6 +364,35 @@ def checkFunc (j : Json) : R Json := do
     | _, _ => pure ()
     pure (ok (Json.mkObj [("supported", Json.bool true), ("n_derivable", jNat derivable.length), ("arity", jNat k)]))
 
+
+/-- C15 predicate: the choice object accepts exactly the vectors at which the reported relation
+    has no ∞ (relation and flags as reported by the implementation). -/
+def checkC15 (j : Json) : R Json := do
+  let r ← relationOf (← field j "relation")
+  let index ← fNat j "index"
+  let flags := (← fStr j "valid").toList
+  let cs := Spec.allChoices index
+  if flags.length != cs.length then throw "valid string has wrong length"
+  for (c, f) in cs.zip flags do
+    let inf := r.mat.any fun row => row.any fun p => p.evalD c == .i
+    if f == '1' && inf then return viol "accepted-choice-has-infinity" [("choice", jList jNat c)]
+    if f == '0' && !inf then return viol "rejected-choice-has-no-infinity" [("choice", jList jNat c)]
+  -- inf_flows names only pairs whose cell can be infinite
+  match fOpt j "flow_pairs" with
+  | some fp =>
+    for pr in ← arrOf fp do
+      match ← arrOf pr with
+      | [a, b] =>
+        let x ← strOf a; let y ← strOf b
+        match r.vars.idxOf? x, r.vars.idxOf? y with
+        | some i, some k =>
+          if !(Matrix.get r.mat i k).someInfty then
+            return viol "flow-pair-without-infinity" [("src", a), ("tgt", b)]
+        | _, _ => return viol "flow-pair-unknown-variable" [("src", a), ("tgt", b)]
+      | _ => throw "bad pair"
+  | none => pure ()
+  pure (ok Json.null)
+
 end Ops
 
 def dispatch (op : String) (j : Json) : R Json :=
@@ -384,6 +413,7 @@ def dispatch (op : String) (j : Json) : R Json :=
   | "model.apply_choice" => Ops.applyChoiceOp j
   | "spec.sem_table" => Ops.semTableOp j
   | "check.func" => Ops.checkFunc j
+  | "check.C15" => Ops.checkC15 j
   | "model.choices" => Ops.choicesModel j
   | "model.choices_intersect" => Ops.choicesIntersect j
   | "check.C04" => Ops.checkC04 j
